@@ -11,6 +11,7 @@
 use common::*;
 
 mod ops;
+mod ops_addr;
 mod ops_drop;
 mod ops_flags;
 mod ops_raw;
